@@ -46,6 +46,52 @@ Inductive raw :=
 
 Definition row := list (string * value).   (* the Map `current` *)
 
+(* nested induction principle *)
+Section raw_ind'.
+  Variable P : raw -> Prop.
+  Hypothesis Hval : forall v, P (RVal v).
+  Hypothesis Hcol : forall p, P (RCol p).
+  Hypothesis Hneutral : forall s, P (RNeutral s).
+  Hypothesis Hnum : forall o, P (RNumPtr o).
+  Hypothesis Homit : P ROmit.
+  Hypothesis Htuple : forall l, Forall P l -> P (RTuple l).
+  Fixpoint raw_ind' (r : raw) : P r :=
+    match r with
+    | RVal v => Hval v
+    | RCol p => Hcol p
+    | RNeutral s => Hneutral s
+    | RNumPtr o => Hnum o
+    | ROmit => Homit
+    | RTuple l => Htuple l ((fix go (l : list raw) : Forall P l :=
+                               match l with [] => Forall_nil _ | x :: r => Forall_cons _ (raw_ind' x) (go r) end) l)
+    end.
+End raw_ind'.
+
+(* heplers.go Unwrapped, one member of the slice a value tuple evaluated to (the function recurses into a member
+   that is itself a slice).  Go: `NeutalString` -> string; `*float64` -> the number, a nil pointer leaves the
+   zero value nil in the copy; `[]any` -> Unwrapped of it; `default` -> the member as it is.  When HasWrapper
+   finds no NeutalString / *float64 at any depth the slice ITSELF is returned: its members are then the same plain
+   values the copy would hold, so in a model without slice identity both branches are this one function.
+   The `default` branch is where a member that is neither plain nor one of the two wrappers stays in the result:
+     - Ommit(true) (a SPIN / SPINASYNC call, the effect-only built-ins) is kept as a member: not a [value];
+     - ColumnName cannot occur, ValueTupleExpr has read it (were it there, it would be kept: not a [value]). *)
+Fixpoint unwrapped (r : raw) : res value :=
+  match r with
+  | RVal v => Ok v                     (* plain value (number / bool / NULL literal, column content, subquery rows, ...) *)
+  | RNeutral s => Ok (VStr s)
+  | RNumPtr None => Ok VNull
+  | RNumPtr (Some f) => Ok (VNum f)
+  | RTuple l =>
+      let! vs := (fix each (l : list raw) : res (list value) :=
+                    match l with
+                    | [] => Ok []
+                    | x :: r => let! v := unwrapped x in let! vs := each r in Ok (v :: vs)
+                    end) l in
+      Ok (VArr vs)
+  | RCol _ => OutOfModel
+  | ROmit => OutOfModel
+  end.
+
 (* heplers.go ValueOf *)
 Definition value_of (current : row) (r : raw) : res value :=
   match r with
@@ -55,7 +101,7 @@ Definition value_of (current : row) (r : raw) : res value :=
   | RNumPtr None => Ok VNull
   | RNumPtr (Some f) => Ok (VNum f)
   | ROmit => OutOfModel          (* Ommit used as an operand: not generated *)
-  | RTuple _ => OutOfModel       (* a tuple outside IN: not generated *)
+  | RTuple l => unwrapped (RTuple l)   (* case []interface{}: Unwrapped(value) *)
   end.
 
 (* AsType[bool] / AsType[float64] on a non-nil value *)
@@ -135,6 +181,21 @@ Section Eval.
       (* the whole dotted name is one quoted key *)
       [fold_right (fun a b => if String.eqb b "" then a else (a ++ "." ++ b)%string) ""%string p]
     else p.
+
+  (* An expression whose raw result may be the `*any` slot of a call started with a qualifier (ASYNC: FunExpr returns
+     `&rs` and fills it from a goroutine).  Only SelectExpr resolves such a slot (its post-processor stores the pointee in
+     the row); [e_call] stands for the value the slot will hold.  ValueTupleExpr / Unwrapped do NOT resolve it: the
+     pointer stays a member of the slice (heplers.go Unwrapped, `default` branch), which is not a [value].  A tuple member
+     of this shape is therefore out of model (see ETuple below).  CASE hands the result of a branch on unchanged. *)
+  Fixpoint slot_form (e : expr Q) : bool :=
+    match e with
+    | ECall qual _ _ => negb (String.eqb qual "")
+    | ECase whens els =>
+        (fix go (ws : list (expr Q * expr Q)) : bool :=
+           match ws with [] => false | (_, v) :: r => slot_form v || go r end) whens
+        || match els with None => false | Some x => slot_form x end
+    | _ => false
+    end.
 
   Fixpoint eval (current : row) (e : expr Q) {struct e} : res raw :=
     let bool_operand (x : expr Q) : res bool :=
@@ -273,6 +334,22 @@ Section Eval.
                                   let! ys := each r in Ok (v :: ys)
                       end) args in
         e_call E qual name vs current
+    | ETuple items =>
+        (* ValueTupleExpr: members left to right; a ColumnName is read at once (ExecReader on the current row), every
+           other result is appended as it is, wrappers included *)
+        let! rs := (fix each (l : list (expr Q)) : res (list raw) :=
+                      match l with
+                      | [] => Ok []
+                      | x :: r =>
+                          if slot_form x then OutOfModel else
+                          let! y := eval current x in
+                          let! y' := match y with
+                                     | RCol p => let! v := reader p (VObj current) in Ok (RVal v)
+                                     | _ => Ok y
+                                     end in
+                          let! ys := each r in Ok (y' :: ys)
+                      end) items in
+        Ok (RTuple rs)
     end.
 
   (* ExecWhere / ExecHaving: the raw result must itself be a Go bool *)
@@ -299,6 +376,6 @@ Section Eval.
 End Eval.
 
 Arguments Build_env {Q}.
-Arguments eval {Q}. Arguments eval_cond {Q}. Arguments select_expr {Q}.
+Arguments slot_form {Q}. Arguments eval {Q}. Arguments eval_cond {Q}. Arguments select_expr {Q}.
 Arguments e_data {Q}. Arguments e_sub {Q}. Arguments e_exists {Q}. Arguments e_agg {Q}.
 Arguments e_call {Q}. Arguments e_hard {Q}.
